@@ -6,6 +6,7 @@ package main
 import (
 	"fmt"
 	"go/ast"
+	"go/constant"
 	"go/token"
 	"go/types"
 	"regexp"
@@ -536,6 +537,15 @@ func c09BoundAgreement(ctx *Ctx, r *Report) {
 						bad = fmt.Sprintf("the block guarded by %s produces the inclusive operator %s under the Exclusive flag (at %s)", guard.Name(), o.name, ctx.Pos(o.pos))
 					}
 				}
+				// an upper bound of zero is a bound (`maxLength: 0`, `maxItems: 0`): the presence test of an integer-typed "max" field
+				// must let 0 through (the library's "unset" is a negative sentinel or a nil pointer, not 0)
+				if stem == "max" && bad == "" {
+					if b, ok := guard.Type().Underlying().(*types.Basic); ok && b.Info()&types.IsInteger != 0 {
+						if v, known := evalWithField(info, is.Cond, guard, 0); known && !v {
+							bad = fmt.Sprintf("the presence test `%s` is false for %s = 0: an upper bound of zero (a field that must stay empty) is dropped from the IR", exprString(is.Cond), guard.Name())
+						}
+					}
+				}
 				r.Check(bad == "", "kinds/bound-agreement", cons, is.Pos(), "keyword, exclusivity flag and operators agree", bad+": the validation / builder code generated from this constraint accepts or rejects the wrong boundary values")
 				return true
 			})
@@ -543,4 +553,75 @@ func c09BoundAgreement(ctx *Ctx, r *Report) {
 	}
 	r.Count("bound-to-constraint blocks in the JSON-family parsers", blocks)
 	r.Floor("bound-to-constraint blocks in the JSON-family parsers", 10)
+}
+
+// evalWithField evaluates a presence test in which the library field `f` has the integer value v; comparisons of the
+// field with constants, !, && and || are understood, anything else makes the result unknown.
+func evalWithField(info *types.Info, e ast.Expr, f *types.Var, v int64) (val bool, known bool) {
+	e = ast.Unparen(e)
+	switch x := e.(type) {
+	case *ast.UnaryExpr:
+		if x.Op == token.NOT {
+			b, k := evalWithField(info, x.X, f, v)
+			return !b, k
+		}
+	case *ast.BinaryExpr:
+		switch x.Op {
+		case token.LAND:
+			a, ka := evalWithField(info, x.X, f, v)
+			b, kb := evalWithField(info, x.Y, f, v)
+			if (ka && !a) || (kb && !b) {
+				return false, true
+			}
+			return a && b, ka && kb
+		case token.LOR:
+			a, ka := evalWithField(info, x.X, f, v)
+			b, kb := evalWithField(info, x.Y, f, v)
+			if (ka && a) || (kb && b) {
+				return true, true
+			}
+			return a || b, ka && kb
+		}
+		l, r := ast.Unparen(x.X), ast.Unparen(x.Y)
+		op := x.Op
+		if fieldOf(info, l) != f {
+			if fieldOf(info, r) != f {
+				return false, false
+			}
+			l, r = r, l
+			switch op {
+			case token.LSS:
+				op = token.GTR
+			case token.GTR:
+				op = token.LSS
+			case token.LEQ:
+				op = token.GEQ
+			case token.GEQ:
+				op = token.LEQ
+			}
+		}
+		tv, ok := info.Types[r]
+		if !ok || tv.Value == nil {
+			return false, false
+		}
+		c, exact := constant.Int64Val(constant.ToInt(tv.Value))
+		if !exact {
+			return false, false
+		}
+		switch op {
+		case token.EQL:
+			return v == c, true
+		case token.NEQ:
+			return v != c, true
+		case token.LSS:
+			return v < c, true
+		case token.LEQ:
+			return v <= c, true
+		case token.GTR:
+			return v > c, true
+		case token.GEQ:
+			return v >= c, true
+		}
+	}
+	return false, false
 }
